@@ -202,6 +202,26 @@ def build_tree_append(t):
     return node
 
 
+def build_tree_append_td(t, read):
+    """top-down: a node is appended to its parent BEFORE its own children are appended to it, so append_child runs on nodes
+    that have a parent; with `read` the root's duration is asked after every append (all caches above are populated and the
+    next append goes through the incremental update of the whole ancestor chain)"""
+    from qupulse.program.loop import Loop
+    mk = lambda n: Loop(waveform=None if n['w'] is None else build_wf(n['w']), measurements=_meas(n['m'], n.get('me')),
+                        repetition_count=_count(n))
+    root = mk(t)
+
+    def fill(node, rec):
+        for c in rec['c']:
+            child = mk(c)
+            node.append_child(loop=child)
+            if read:
+                root.duration
+            fill(child, c)
+    fill(root, t)
+    return root
+
+
 def build_template(d):
     from qupulse.pulses import ConstantPT, TablePT, SequencePT, RepetitionPT, TimeReversalPT, AtomicMultiChannelPT
     k = d['k']
@@ -233,7 +253,10 @@ def build_program(recipe):
         _VSCOPE[0] = (DictScope.from_mapping({'n%d' % i: v for i, v in enumerate(vals)},
                                              volatile={'n%d' % i for i in range(len(vals))}), vol_index(t))
     try:
-        prog = build_tree_append(t) if recipe.get('style') == 'append' else build_tree_ctor(t)
+        style = recipe.get('style')
+        prog = (build_tree_append(t) if style == 'append' else
+                build_tree_append_td(t, style == 'append_td_read') if style in ('append_td', 'append_td_read') else
+                build_tree_ctor(t))
     finally:
         _SHARE[0] = None
         _VSCOPE[0] = None
@@ -318,6 +341,21 @@ def probe_tree(node, envs):
             sc = rd._scope.change_constants({'n%d' % i: v for i, v in env})
             vals.append(int(type(rd)(rd._expression, sc)))
     return {'v': vals, 'c': [probe_tree(c, envs) for c in node]}
+
+
+def probe_duration(node, env):
+    """duration of the program when every volatile count is re-evaluated under `env` (nothing is mutated, no cache used)"""
+    from qupulse.program.volatile import VolatileRepetitionCount
+    rd = node.repetition_definition
+    if isinstance(rd, VolatileRepetitionCount):
+        n = max(int(type(rd)(rd._expression, rd._scope.change_constants({'n%d' % i: v for i, v in env}))), 0)
+    else:
+        n = int(rd)
+    if node.is_leaf():
+        body = F(0) if node.waveform is None else F(node.waveform.duration)
+    else:
+        body = sum((probe_duration(c, env) for c in node), F(0))
+    return body * n
 
 
 def node_durations_wrong(node, reg, path=()):
@@ -514,6 +552,9 @@ def _run_impl(case):
                 n.duration
         mid = describe_tree(prog, reg) if (executed or k < len(steps) - 1) else obs['input']
         last = (path, op)
+        if k == len(steps) - 1 and case.get('volatile') and case['build'].get('vscope') and op[0] == 'make_compat':
+            penvs = probe_envs(len(vol_values(case['build']['tree'])))
+            obs['pdur_before'] = [vlib.frac_json(probe_duration(prog, e)) for e in penvs]
         wlog = []
         try:
             with warnings.catch_warnings(record=True) as wlog:
@@ -544,6 +585,9 @@ def _run_impl(case):
         obs['node_durs_wrong'] = node_durations_wrong(prog, reg)[:3]
         # the copy taken before the rewrite shares only the waveform objects: it must still be the input program
         obs['copy_intact'] = describe_tree(witness_copy, reg) == obs['input'] and not node_durations_wrong(witness_copy, reg)
+        if 'pdur_before' in obs:
+            obs['pdur_after'] = [vlib.frac_json(probe_duration(prog, e))
+                                 for e in probe_envs(len(vol_values(case['build']['tree'])))]
         if case.get('volatile'):
             # the expression behind a volatile count is observed by re-evaluating it under other parameter values; the
             # model knows the expressions of the input only when nothing ran before (tags VVar i in pre-order)
@@ -944,6 +988,13 @@ def py_spec(case, obs):
     if case['kind'] == 'rw':
         if not obs.get('play_same', True):
             return 'sampled voltages (or the end time) of the program differ before and after the rewrite'
+        if ('pdur_after' in obs and 'err' not in obs and not obs.get('warned')
+                and obs['pdur_after'] != obs['pdur_before']):
+            # repaired in round 4 (former finding C06-make-compatible-silent-volatile-freeze); Coq side:
+            # Props.C06_vol_make_compatible_repaired_follows
+            return ('make_compatible emitted no VolatileModificationWarning but the program no longer follows its volatile '
+                    'parameters: durations under re-evaluated counts %r before, %r after'
+                    % (obs['pdur_before'], obs['pdur_after']))
         if obs.get('twf_after_same') is False:
             return 'to_waveform(program) after the rewrite samples differently from the program before the rewrite'
     return None
@@ -1262,7 +1313,8 @@ def gen_build(rng, tier, **opts):
     if r < 0.12 and not opts.get('empty') and not opts.get('zero'):
         return {'template': g_template(rng, chans, rng.randint(1, 3))}, None
     t = gen_tree(rng, chans, opts.pop('maxdepth', 4), **opts)
-    b = {'tree': t, 'style': rng.choice(['ctor', 'append']), 'read_dur': rng.random() < 0.5}
+    b = {'tree': t, 'style': rng.choice(['ctor', 'ctor', 'ctor', 'append', 'append', 'append_td', 'append_td_read']),
+         'read_dur': rng.random() < 0.5}
     r2 = rng.random()
     if r2 < 0.15:                   # the same waveform OBJECT at several leaves
         t = share_leaves(rng, t)
@@ -1361,6 +1413,121 @@ def gen_unbalanced_at_depth(rng, tier):
                         continue
                     cases.append({'kind': 'rw', 'build': {'tree': t, 'style': rng.choice(['ctor', 'append']),
                                                           'read_dur': read}, 'path': path, 'op': ['flatten', dd]})
+    return cases
+
+
+def gen_to_waveform_shapes(rng, tier):
+    """Deterministic family for the two decisions of to_waveform / SequenceWaveform.from_sequence that the random trees
+    reach only by luck (seeds C06-5, C06-6):
+    A. single-child chains, i.e. what encapsulate() builds: outer count r0 around ONE child with count r1 (leaf, or an
+       inner node with one or two children), alone and next to a sibling; the combined count r0 * r1 must come out for
+       every (r0, r1) in {1,2} x {1,2,3}, in particular r0 = 1 < r1;
+    B. the constant fold of from_sequence: first part constant / not constant, a later plain part with the same / other /
+       no constant, and a NESTED part (sub loop with count 1 -> SequenceWaveform, count 2 -> RepetitionWaveform, wrapped
+       once more, itself all-constant with the same values) in both orders: the result may only be one ConstantWaveform
+       when every part, nested ones included, is the same constant.
+    Every shape as `to_waveform(program)` (kind twf), the merging ones again through make_compatible (the whole program
+    shorter than the minimal length of its parts) and, for A, through encapsulate / flatten_and_balance first."""
+    cases = []
+    ch = ['A']
+
+    def leaf(w, r=1):
+        return {'r': r, 'w': w, 'm': [], 'c': []}
+
+    def node(kids, r=1):
+        return {'r': r, 'w': None, 'm': [], 'c': kids}
+
+    def ramp(d=4):
+        return g_table1(rng, 'A', d)
+
+    def const(v, d=4):
+        return {'k': 'const', 'd': str(d), 'v': {'A': v}}
+
+    def twf(t):
+        cases.append({'kind': 'twf', 'build': {'tree': t, 'style': 'ctor', 'read_dur': False}})
+
+    def rw(t, path, op, prefix=None):
+        c = {'kind': 'rw', 'build': {'tree': t, 'style': 'ctor', 'read_dur': False}, 'path': path, 'op': op}
+        if prefix is not None:
+            c['prefix'] = prefix
+        cases.append(c)
+
+    # A
+    for r0 in (1, 2):
+        for r1 in (1, 2, 3):
+            for kind in ('ramp', 'const', 'inner1', 'inner2'):
+                if kind == 'ramp':
+                    child = leaf(ramp(), r1)
+                elif kind == 'const':
+                    child = leaf(const('1/2'), r1)
+                elif kind == 'inner1':
+                    child = node([leaf(ramp(), rng.choice([1, 2]))], r1)
+                else:
+                    child = node([leaf(ramp()), leaf(const('1'))], r1)
+                chain = node([child], r0)
+                twf(chain)
+                twf(node([chain, leaf(ramp(2))], rng.choice([1, 2])))
+                if kind in ('ramp', 'const') and r0 == 1:
+                    # the shape as encapsulate() / flatten_and_balance make it from a repeated leaf, then merged
+                    sub = node([leaf(ramp()), leaf(ramp())], 2)
+                    t = node([leaf(child['w'], r1), sub])
+                    total = int(_json_dur(t))
+                    rw(t, [0], ['encapsulate'])
+                    rw(t, [], ['flatten', 2])
+                    rw(t, [], ['make_compat', total, total, '1'], prefix=[[[], ['flatten', 2], False]])
+                    rw(t, [], ['make_compat', total, total, '1'], prefix=[[[0], ['encapsulate'], False]])
+    # B
+    v = '1/2'
+    firsts = {'const': lambda: leaf(const(v, 8)), 'ramp': lambda: leaf(ramp(8))}
+    plains = {'none': lambda: [], 'same': lambda: [leaf(const(v, 2))], 'other': lambda: [leaf(const('1', 2))]}
+    nesteds = {
+        'seq_ramps': lambda: node([leaf(ramp()), leaf(ramp())]),
+        'seq_const_ramp': lambda: node([leaf(const(v)), leaf(ramp())]),
+        'seq_same_consts': lambda: node([leaf(const(v)), leaf(const(v, 2))]),
+        'seq_other_consts': lambda: node([leaf(const('1')), leaf(const('1', 2))]),
+        'rep_ramps': lambda: node([leaf(ramp()), leaf(ramp())], 2),
+        'wrapped': lambda: node([node([leaf(ramp()), leaf(const(v))])]),
+        'rep_leaf': lambda: leaf(ramp(), 2),
+    }
+    # a first part that only BECOMES a ConstantWaveform when it is built: a table whose entries all have the same value,
+    # a one-part sequence (from_sequence returns the part)
+    firsts2 = {'const_table': lambda: leaf({'k': 'table', 'ch': 'A', 'e': [['0', v, 'hold'], ['8', v, 'hold']]}),
+               'seq1_const': lambda: leaf({'k': 'seq', 'l': [const(v, 8)]}),
+               'seq1_ramp': lambda: leaf({'k': 'seq', 'l': [ramp(8)]})}
+    for fk, first in sorted(firsts2.items()):
+        for nk, nested in sorted(nesteds.items()):
+            t = node([first(), leaf(const(v, 2)), nested()])
+            twf(t)
+            if tier == 'thorough':
+                total = int(_json_dur(t))
+                rw(t, [], ['make_compat', total, total, '1'])
+    # cleanup('remove_empty_loops') drops an empty leaf that declares measurements (DroppedMeasurementWarning): at the top,
+    # below an inner node, as the only child (the parent becomes empty itself)
+    for mg in (False, True):
+        empty_m = {'r': rng.choice([1, 2]), 'w': None, 'm': [0], 'c': []}
+        inner = node([dict(empty_m, m=[1]), leaf(ramp())], 2)
+        only = node([dict(empty_m, m=[2])])
+        t = node([leaf(const(v)), empty_m, inner, only])
+        for path in ([], [2], [3]):
+            rw(t, path, ['cleanup', True, mg])
+    for fk, first in sorted(firsts.items()):
+        for pk, plain in sorted(plains.items()):
+            for nk, nested in sorted(nesteds.items()):
+                for order in (0, 1, 2):
+                    kids = [first()]
+                    if order == 0:
+                        kids += plain() + [nested()]
+                    elif order == 1:
+                        kids += [nested()] + plain()
+                    else:
+                        if pk == 'none':
+                            continue
+                        kids = [nested()] + kids + plain()          # the nested part first
+                    t = node(kids, 1 if order != 1 else 2)
+                    twf(t)
+                    if fk == 'const' and order == 0 or tier == 'thorough':
+                        total = int(_json_dur(t)) // t['r']
+                        rw(t, [], ['make_compat', total, total, '1'])
     return cases
 
 
@@ -1642,9 +1809,10 @@ def gen_cases(rng, tier, ctx):
     # --- decimal durations (inexact floating point; tolerance 2^-30) ---------------------------------------------------
     cases.extend(gen_dec(rng, tier))
     # --- to_waveform -------------------------------------------------------------------------------------------------
-    for _ in range(150 * mult):
+    for _ in range(110 * mult):
         b, t = gen_build(rng, tier, meas=False)
         add('twf', b)
+    cases.extend(gen_to_waveform_shapes(rng, tier))
     # --- smallest_factor_ge ------------------------------------------------------------------------------------------
     ns = range(1, 61) if tier == 'quick' else range(1, 401)
     for n in ns:
